@@ -186,16 +186,30 @@ def build_driver(force=False):
         return drv
 
 
-def run_model(entry, inputs, timeout=1200):
-    """inputs: list of s-expression strings; returns list of output strings"""
+def run_model(entry, inputs, timeout=1200, shards=12):
+    """inputs: list of s-expression strings; returns list of output strings (several driver processes for large batches)"""
     drv = build_driver()
-    p = run([drv, entry], input="\n".join(inputs) + "\n", timeout=timeout)
-    if p.returncode != 0:
-        raise RuntimeError("driver failed: " + p.stderr[-2000:])
-    out = p.stdout.splitlines()
-    if len(out) != len(inputs):
-        raise RuntimeError("driver returned %d lines for %d inputs" % (len(out), len(inputs)))
-    return out
+    if not inputs:
+        return []
+
+    def one(chunk):
+        p = run([drv, entry], input="\n".join(chunk) + "\n", timeout=timeout)
+        if p.returncode != 0:
+            raise RuntimeError("driver failed: " + p.stderr[-2000:])
+        out = p.stdout.splitlines()
+        if len(out) != len(chunk):
+            raise RuntimeError("driver returned %d lines for %d inputs" % (len(out), len(chunk)))
+        return out
+    total = sum(len(x) for x in inputs)
+    if len(inputs) < 64 or total < 2000000:
+        return one(inputs)
+    import concurrent.futures
+    n = min(shards, len(inputs))
+    size = (len(inputs) + n - 1) // n
+    chunks = [inputs[i:i + size] for i in range(0, len(inputs), size)]
+    with concurrent.futures.ThreadPoolExecutor(max_workers=n) as ex:
+        outs = list(ex.map(one, chunks))
+    return [o for chunk in outs for o in chunk]
 
 
 def build_harness(tags="verif", race=False, name=None):
